@@ -164,6 +164,36 @@ def cycle_status_reset(run, F, E):
         run.ob('C09.e', 'TaskStatus::clear sets NONE', ws == [('result', 0)], where=fn.pat, detail=ws, key='TaskStatus::clear does not reset to NONE')
 
 
+RESET_MEMBERS = ['tasks', 'taskLinks', 'tasksBounds', 'tasksSuccesses', 'tasksFailures', 'planExists', 'headStatus', 'subStatus']
+
+
+def reset_completeness(run, F, E, rule='C09.f'):
+    """the plan state does not survive what is supposed to end it: PlanDataT::clear() definitely resets every member that carries plan
+    state (task pool, every task link, bounds, every success / failure bit, the plan-exists flag, both status accumulators), and
+    deactivation (R_::finalExit) as well as load() definitely go through such a full reset -- must-write analysis (loops over a whole
+    fixed array count as writing every element)."""
+    M = effects.MustWrites(E)
+    for fn in F.find('PlanDataT', 'clear'):
+        mw = M.of_function(fn)
+        rec = F.rec_by_name.get(fn.cls) or {}
+        have = [f['n'] for f in rec.get('fields', [])]
+        # (a helper taking the plan data by reference reports the same members under the type-canonical root)
+        missing = [m for m in RESET_MEMBERS if m in have and not any(p[:2] == ('this', m) or p[:3] == ('core', 'planData', m) for p in mw)]
+        # an array member counts only when every element is written (a whole-array loop), a partial walk does not
+        run.ob(rule, 'PlanDataT::clear() definitely resets %s' % ', '.join(m for m in RESET_MEMBERS if m in have), not missing, where=fn.pat,
+               detail=missing or None, key='PlanDataT::clear() leaves plan state behind')
+    for m_ in ('finalExit', 'load'):
+        for fn in F.find('R_', m_):
+            if m_ == 'load' and not (fn.params and 'ReadStream' in fn.params[0]['ty'] or fn.params and 'BitReadStreamT' in fn.params[0]['ty']):
+                continue
+            mw = M.of_function(fn)
+            pd = [r for r in F.records if r.get('_tkey') == 'ffsm2::detail::PlanDataT']
+            have = [f['n'] for f in (pd[0].get('fields', []) if pd else [])]
+            missing = [x for x in RESET_MEMBERS if x in have and not any(p[:3] == ('core', 'planData', x) for p in mw)]
+            run.ob(rule, 'R_::%s definitely resets the whole plan state (no task, report or plan-exists flag survives %s)' % (m_, 'deactivation' if m_ == 'finalExit' else 'loading'),
+                   not missing, where=fn.pat, detail=missing or None, key='R_::%s lets plan state survive' % m_)
+
+
 def plan_exists(run, F, E):
     for fn in F.fns:
         direct = []
@@ -194,6 +224,7 @@ def run(run):
             run.count('fact units')
             outcome_rules(run, F, E)
             plan_exists(run, F, E)
+            reset_completeness(run, F, E, 'C09.f')
             cycle_status_reset(run, F, E)
             c08.status_rules(run, F, E)
             records.definite_init(run, 'C09.c', F)
@@ -214,6 +245,7 @@ def run(run):
     run.floor('C09.c', 100)
     run.floor('C09.d', 20)
     run.floor('C09.e', 20)
+    run.floor('C09.f', 4)
     run.explanation = (
         'Control-dependence rules on updatePlan (callbacks only on their branch edges, mutually exclusive, no firing in the failure '
         'branch, plan cleared afterwards), who-may-call rules for the outcome wrappers, the planExists gate and its writers, the '
